@@ -28,6 +28,7 @@ def settings_menu(seed, tier):
     R = explore.roles(seed)
     m = [[R['R']], [R['B']], [R['W']], [R['N']], [R['X']], [R['R'], R['W']], [], [R['e']], [R['g']], [R['m']],
          [R['R'], R['B']],        # two new settings that conflict with each other: the last one given shows
+         ['int:1', R['e'], 'int:34'],   # integer codes before and after a setting in another form: the order given counts
          ['raw:;'],               # a non-empty argument that holds no setting: nothing to apply
          [R['Z']], [R['q']]]      # a reset, a verbatim setting of two groups: settings that touch more than their first code says
     if tier != 'quick':
